@@ -537,7 +537,155 @@ def c15(prop, tier):
         shutil.rmtree(work, ignore_errors=True)
 
 
+def parse_race_reports(text):
+    """Data race reports of the Go race detector -> set of (site, site) pairs (library functions, no line numbers)."""
+    import re as _re
+    pairs = {}
+    for block in text.split("WARNING: DATA RACE")[1:]:
+        block = block.split("==================")[0]
+        halves = _re.split(r"\nPrevious (?:read|write) at ", block, maxsplit=1)
+        sites = []
+        for half in halves[:2]:
+            # the call site: the innermost frame of package meta (or the root package) - the function that reached for the
+            # shared object; frames inside nfa/dfa vary from run to run, the call site does not
+            site = "?"
+            frames = _re.findall(r"^  (github\.com/coregx/coregex[^\s]*?)\(\)\n", half, _re.M)
+            for fn in frames:
+                short = fn.replace("github.com/coregx/coregex", "")
+                if short.startswith("/meta.") or short.startswith(".("):
+                    site = short
+                    break
+            if site == "?" and frames:
+                site = frames[0].replace("github.com/coregx/coregex", "")
+            sites.append(site)
+        if len(sites) == 2:
+            key = " <-> ".join(sorted(sites))
+            pairs[key] = pairs.get(key, 0) + 1
+    return pairs
+
+
+def c06(prop, tier):
+    t0 = time.time()
+    q = tier == "quick"
+    vh = vlib.build_harness()
+    work = tempfile.mkdtemp(prefix="vC06_")
+    try:
+        machinery, fail_paths = [], []
+        states = trans = 0
+        info = {}
+        # (1) the design model: every interleaving
+        gs = {1, 2} if q else {1, 2, 3}
+        calls = 2 if q else 1
+        mres = tlc_model_stage("Pool", "MC_Pool", {"Gs": gs, "Calls": 2, "MaxNew": 3, "MaxGC": 1, "EmitSchedules": False},
+                               "SPECIFICATION Spec\nINVARIANTS Exclusive NotShared SlotNotPooled SearchOwns OneStateWhenSequential\n"
+                               "PROPERTY Termination\nVIEW View\n", workers=8)(vh, work)
+        machinery += mres.get("machinery") or []
+        states += mres.get("states", 0)
+        trans += mres.get("transitions", 0)
+        info.update(mres.get("info") or {})
+        one = tlc_model_stage("Pool_sequential", "MC_Pool", {"Gs": {1}, "Calls": 3, "MaxNew": 3, "MaxGC": 1, "EmitSchedules": False},
+                              "SPECIFICATION Spec\nINVARIANTS Exclusive NotShared OneStateWhenSequential\nPROPERTY Termination\nVIEW View\n", workers=2)(vh, work)
+        machinery += one.get("machinery") or []
+        states += one.get("states", 0)
+        trans += one.get("transitions", 0)
+        info.update(one.get("info") or {})
+        # (2) schedules -> gated replay -> trace validation
+        sched_out = os.path.join(work, "sched.out")
+        r = vlib.run_tlc("MC_Pool", {"Gs": gs, "Calls": calls, "MaxNew": 2 if q else 3, "MaxGC": 1 if q else 0, "EmitSchedules": True},
+                         "SPECIFICATION Spec\nINVARIANTS Exclusive NotShared EmitDone\n", sched_out, workers=1, timeout=1800)
+        if r.error or r.violation:
+            raise Machinery(f"MC_Pool schedules: {r.error or r.violation}")
+        states += r.distinct
+        trans += r.generated
+        tr = os.path.join(work, "pool.ndjson")
+        rp, fp = os.path.join(work, "pool.json"), os.path.join(work, "pool_fail.ndjson")
+        stride = 7 if q else 3
+        p = subprocess.run([vh, "poolsched", "-in", sched_out, "-out", tr, "-report", rp, "-fail", fp, "-goroutines", str(len(gs)),
+                            "-calls", str(calls), "-stride", str(stride), "-offset", str(vlib.seed() % stride)],
+                           capture_output=True, text=True, timeout=2400)
+        if p.returncode != 0:
+            raise Machinery("poolsched: " + p.stderr[-600:])
+        rep = vlib.read_report(rp)
+        fail_paths.append(fp)
+        tr_r, ok, depth = validate_trace("Trace_Pool", tr, work, "pool", invariants=["Exclusive", "NotShared"])
+        states += tr_r.distinct
+        trans += tr_r.generated
+        extra = []
+        txt = open(os.path.join(work, "trace_pool.tlc"), errors="replace").read()
+        import re as _re
+        seen = set()
+        for line in txt.splitlines():
+            if line.startswith('"') and "scratch-shared" in line:
+                d = json.loads(json.loads(line))
+                k = (d["pat"], d["kind"])
+                if k in seen:
+                    continue
+                seen.add(k)
+                kind = {1: "PikeVM internal state", 2: "BacktrackerState", 3: "DFA cache"}.get(d["kind"], str(d["kind"]))
+                extra.append({"prop": prop, "api": "scratch-shared", "mode": "first", "pattern": d["pat"], "hay": "", "scope": "pool",
+                              "args": kind, "want": "every mutable scratch object is used by at most one call in progress (Trace_Pool!Scr)",
+                              "got": f"{kind} used by two calls in progress (trace line {d['line']})"})
+        if tr_r.error or tr_r.violation:
+            machinery.append(f"Trace_Pool: {(tr_r.error or tr_r.violation)[:500]}")
+        elif not ok:
+            lines = open(tr).read().splitlines()
+            ctx = "?"
+            for j in range(min(depth, len(lines)) - 1, -1, -1):
+                d = json.loads(lines[j])
+                if d["ev"] == "begin":
+                    ctx = d.get("pat", "?")
+                    break
+            extra.append({"prop": prop, "api": "pool-protocol", "mode": "first", "pattern": ctx, "hay": "", "scope": "pool",
+                          "args": f"trace line {depth}", "want": "an event allowed by Trace_Pool (ownership hand-off of spec/Pool.tla)",
+                          "got": lines[depth - 1] if 0 < depth <= len(lines) else "?"})
+        # (3) free-running goroutines under the race detector
+        vhr = vlib.build_harness(race=True)
+        rrp, rfp = os.path.join(work, "race.json"), os.path.join(work, "race_fail.ndjson")
+        env = dict(os.environ)
+        env["GORACE"] = "halt_on_error=0 history_size=2"
+        p = subprocess.run([vhr, "racerun", "-report", rrp, "-fail", rfp, "-goroutines", "6" if q else "12", "-iters", "30" if q else "200"],
+                           capture_output=True, text=True, timeout=3000, env=env)
+        if p.returncode not in (0, 66):
+            raise Machinery(f"racerun exit {p.returncode}: {p.stderr[-600:]}")
+        rrep = vlib.read_report(rrp)
+        fail_paths.append(rfp)
+        races = parse_race_reports(p.stderr)
+        for site, n in sorted(races.items()):
+            extra.append({"prop": prop, "api": "data-race", "mode": "first", "pattern": site, "hay": "", "scope": "pool",
+                          "args": f"{n} reports", "want": "no data race (Go race detector)", "got": "DATA RACE between " + site})
+        xp = os.path.join(work, "extra_fail.ndjson")
+        with open(xp, "w") as fh:
+            for d in extra:
+                fh.write(json.dumps(d) + "\n")
+        fail_paths.append(xp)
+        kf, known_hit, violations, total = vlib.classify(fail_paths, prop)
+        info.update({"schedules_generated": rep["extra"]["schedules_generated"], "schedules_replayed": rep["extra"]["schedules_replayed"],
+                     "pool_events": rep["extra"]["events"], "trace_accepted": ok, "race_reports": sum(races.values()),
+                     "race_site_pairs": len(races), "race_run_calls": rrep.get("calls", 0)})
+        coverage = {"states": states, "transitions": trans, "traces_validated_against_impl": rep["extra"]["schedules_replayed"],
+                    "samples": (rep.get("samples") or [])[:3] + (rrep.get("samples") or [])[:1] or [{"note": "none"}],
+                    "evaluations": rep.get("calls", 0) + rrep.get("calls", 0), "distinct_nontrivial": rep["extra"]["schedules_replayed"],
+                    "rule": "TLC explores every interleaving of the Pool model (2-3 goroutines x 1-2 calls, GC) and prints each complete schedule; a "
+                            "seed-chosen 1/stride of them is replayed with gates on real goroutines sharing one Regex over 12 representative patterns x 6 "
+                            "APIs; the recorded events are validated by TLC against Trace_Pool (ownership hand-off, exclusive scratch per call in progress, "
+                            "results equal sequential results); plus free-running goroutines under the Go race detector; distinct = schedules replayed",
+                    "stages": info, "failing_calls_total": total, "exhaustive": False}
+        return vlib.finish(prop, tier, "model_checking", coverage, known_hit, violations, t0, kf,
+                           assumptions=["the gates serialise the goroutines, so the recorded event order is the execution order",
+                                        "absence of data races in the memory-model sense is only observed (race detector on free-running goroutines)"],
+                           machinery=machinery)
+    finally:
+        keep = os.environ.get("VERIF_KEEP")
+        if keep:
+            os.makedirs(keep, exist_ok=True)
+            for f in os.listdir(work):
+                if f.endswith("fail.ndjson"):
+                    shutil.copy(os.path.join(work, f), os.path.join(keep, f"{prop}_fail_{f}"))
+        shutil.rmtree(work, ignore_errors=True)
+
+
 REGISTRY = {
+    "C06": c06,
     "C15": c15,
     "C19": c19,
     "C09": c09,
